@@ -37,7 +37,8 @@ PER_FILE = 64
 
 OPCODE = {'pileup': 1, 'pileup_bg': 2, 'mask': 3, 'merge': 4, 'sort_key': 5, 'sort_lex': 6, 'sort_geom': 7,
           'count_overlap': 8, 'intersect': 9, 'unique_intersect': 10, 'jaccard': 11, 'forbes': 12, 'clip': 13, 'extend': 14,
-          'jaccard_geom': 15, 'pileup_geom': 16, 'mask_geom': 17, 'merge_geom': 18}
+          'jaccard_geom': 15, 'pileup_geom': 16, 'mask_geom': 17, 'merge_geom': 18,
+          'jaccard_multi': 19, 'forbes_multi': 20}
 GNAMES = ['chrA', 'chrB', 'chrC', 'chrD', 'chrE']
 NAMES = ['chr1', 'chr10', 'chr2', 'chrX', 'chr2_alt']
 
@@ -85,6 +86,9 @@ def _unary(cases, rng, size, ivs, dists=None, geom=True):
         srt = sorted(a, key=lambda t: t[1])
         for d in (dists if dists is not None else range(size + 1)):
             cases.append(_case('merge', 'arith', size, srt, d=d))
+            if d in (1, size) and srt:
+                # the same Interval object is used again after merge_intervals: the call must not have changed it
+                cases.append(_case('pileup', 'after_merge', size, srt, d=d))
             if g_ok and d in (0, 1, size):
                 cases.append(_case('merge_geom', 'geom', size, srt, d=d, **_genome(rng, size)))
 
@@ -246,6 +250,22 @@ def generate(tier, seed):
         X = _rand_set(rng, S, rng.choice([1, 2, 3, 5]))
         for A, B in (([], X), (X, []), ([], [])):
             _binary(cases, rng, S, A, B, ops=('jaccard', 'forbes'))
+    # ---- jaccard / forbes on genomes with several contigs; a contig may carry intervals of only one set or of none
+    for i in range(250 if quick else 2000):
+        k = rng.randint(2, 3) if i % 5 else 1
+        sizes = [rng.randint(1, 6) for _ in range(k)]
+        rows = []
+        for _ in range(2):
+            r = []
+            for ci in range(k):
+                if rng.random() < 0.4:
+                    continue
+                for s, e in _rand_set(rng, sizes[ci], rng.randint(1, 2)):
+                    r.append((ci, s, e))
+            rows.append(sorted(r))
+        for op in ('jaccard_multi', 'forbes_multi'):
+            cases.append(dict(op=op, route='arith', size=max(sizes), d=0, a=[list(x) for x in rows[0]], b=[list(x) for x in rows[1]],
+                              sizes=sizes, rank=0))
     # ---- unique_intersect with rows of A that have no bases (start = stop): not in the property; the model follows the library
     for i in range(300 if quick else 2000):
         S = rng.choice([2, 3, 4, 5, 6])
@@ -319,6 +339,24 @@ def observe(case):
 
     try:
         a, b = case['a'], case['b']
+        if op == 'pileup' and route == 'after_merge':
+            iv = mk(a)
+            ar.merge_intervals(iv, d)
+            r = ar.get_pileup(iv, size)
+            return dict(err=0, dense=[int(x) for x in r.to_array()])
+        if op in ('jaccard_multi', 'forbes_multi'):
+            def mkg(rows):
+                if not rows:
+                    return Interval([GNAMES[0]], np.array([0]), np.array([1]))[:0]
+                return Interval([GNAMES[t] for t, s, e in rows], np.array([s for t, s, e in rows], dtype=int),
+                                np.array([e for t, s, e in rows], dtype=int))
+            f = float(getattr(ar, op.split('_')[0])(genome, mkg(a), mkg(b)))
+            if math.isnan(f):
+                return dict(err=0, kind=1, num=0, den=1)
+            if math.isinf(f):
+                return dict(err=0, kind=2, num=0, den=1)
+            n, m = f.as_integer_ratio()
+            return dict(err=0, kind=0, num=n, den=m)
         if op == 'pileup':
             if route == 'arith':
                 r = ar.get_pileup(mk(a), size)
